@@ -50,6 +50,8 @@ VARIANTS = {
     "priv": ("5", "5", None, True),
     # no annotation, no default: the value is passed through as it is
     "bare": (None, None, None, False),
+    # depends on the first parameter (p0): may only be given when p0 is given -- by position or by name alike
+    "dep0": ("Param(7, dependencies=['p0'])", "7", None, False),
 }
 KIND_VARIANTS = {"po": ["req", "def", "priv"], "pk": ["req", "def", "alias", "adef", "oalias", "oadef", "priv", "bare"],
                  "ko": ["req", "def", "alias", "adef", "oalias", "priv"]}
@@ -133,6 +135,13 @@ def signatures(tier):
                     if n == 4 and (vp or vk) and len(set(kinds)) < 2:
                         continue
                     out.append(Sig(list(combo), vp, vk))
+    # parameters with a dependency on the first one (explicit signatures, not part of the product above)
+    for first in (("po", "req"), ("pk", "req"), ("pk", "def"), ("pk", "alias")):
+        for rest in ([("pk", "dep0")], [("ko", "dep0")], [("pk", "def"), ("ko", "dep0")], [("pk", "dep0"), ("ko", "def")]):
+            if first[0] == "pk" and first[1] == "req" and rest[0] == ("pk", "def") and False:
+                continue
+            for vk in (False, True):
+                out.append(Sig([first] + rest, False, vk))
     return out
 
 
@@ -257,6 +266,9 @@ def expected(sig: Sig, ref, args, kwargs):
         out["*"] = tuple(conv(v) for v in ba.arguments.get("args", ()))
     if sig.var_kw:
         out["**"] = {k: conv(v) for k, v in ba.arguments.get("kwargs", {}).items()}
+    for (k, v), n in zip(sig.params, sig.names):
+        if v == "dep0" and n in given and sig.names[0] not in given:
+            return ("error",)      # a dependant given without its dependency
     if bad:
         return ("error",)
     return ("value", out)
